@@ -635,7 +635,7 @@ def run(chk):
     rng = chk.rng
     from .. import translate_reorder
     gen_done, gen_unt = translate_reorder.translate(chk)
-    chk.lean_build(['PeptVerif.Props.C11', 'PeptVerif.Props.C11Canon', 'PeptVerif.Props.C11Gen'], DRV)
+    chk.lean_build(['PeptVerif.Props.C11', 'PeptVerif.Props.C11Canon', 'PeptVerif.Props.C11Gen', 'PeptVerif.Props.C11Ext'], DRV)
     chk.trusted += [
         'harness/translate_reorder.py: the reading of the Python subset (int + - %, comparisons, and/or/not, max/min, len(self.sequence), '
         'interval attributes, deepcopy = identity, `x is not None` on typed ints = true, lets, tuple swap, if / if-else / continue, the two '
@@ -791,7 +791,8 @@ def run(chk):
 
     if tier == 'thorough':
         chk.leanchecker(['PeptVerif.Model.Reorder', 'PeptVerif.Lemmas.Reorder', 'PeptVerif.Lemmas.ReorderCanon', 'PeptVerif.Props.C11',
-                         'PeptVerif.Props.C11Canon', 'PeptVerif.Generated.ReorderPy', 'PeptVerif.Props.C11Gen'])
+                         'PeptVerif.Props.C11Canon', 'PeptVerif.Generated.ReorderPy', 'PeptVerif.Props.C11Gen',
+                         'PeptVerif.Lemmas.ReorderExt', 'PeptVerif.Props.C11Ext'])
     return chk.finish(classify)
 
 
